@@ -15,7 +15,7 @@
 (***************************************************************************)
 EXTENDS Naturals, Sequences, FiniteSets
 
-CONSTANT Configs          \* set of records [N, PSize, W, Fail]  (Fail: set of events whose evaluation raises)
+CONSTANT Configs          \* set of records [N, PSize | Lens, W, Fail]  (Fail: set of events whose evaluation raises)
 
 VARIABLES cfg,            \* the batch being evaluated
           st,             \* partition -> "pending" | "running" | "done" | "failed"
@@ -25,12 +25,17 @@ VARIABLES cfg,            \* the batch being evaluated
 
 vars == <<cfg, st, res, outcome, kernel>>
 
-NParts(c)    == (c.N + c.PSize - 1) \div c.PSize
-PartOf(c, i) == (i - 1) \div c.PSize + 1
-PartLen(c, p) == IF p * c.PSize <= c.N THEN c.PSize ELSE c.N - (p - 1) * c.PSize
-PartSet(c, p) == {i \in 1..c.N : PartOf(c, i) = p}
+(* A configuration cuts the N events into consecutive partitions.  The model instances give the code's rule (PSize consecutive  *)
+(* events per partition, a shorter last one); a recorded execution gives the lengths it observed (Lens): any consecutive         *)
+(* segmentation is a legitimate implementation choice - C10 quantifies over partition sizes.                                    *)
+Uniform(n, s) == [p \in 1..((n + s - 1) \div s) |-> IF p * s <= n THEN s ELSE n - (p - 1) * s]
+LensOf(c)     == IF "Lens" \in DOMAIN c THEN c.Lens ELSE Uniform(c.N, c.PSize)
+NParts(c)     == Len(LensOf(c))
+Offset(c, p)  == LET L == LensOf(c)  S[q \in 0..Len(L)] == IF q = 0 THEN 0 ELSE S[q - 1] + L[q] IN S[p - 1]
+PartLen(c, p) == LensOf(c)[p]
+PartSet(c, p) == {i \in 1..c.N : Offset(c, p) < i /\ i <= Offset(c, p) + PartLen(c, p)}
 Failing(c, p) == PartSet(c, p) \cap c.Fail # {}
-PartSeq(c, p) == [k \in 1..PartLen(c, p) |-> (p - 1) * c.PSize + k]
+PartSeq(c, p) == [k \in 1..PartLen(c, p) |-> Offset(c, p) + k]
 Parts(c)     == 1..NParts(c)
 Iota(n)      == [i \in 1..n |-> i]
 
